@@ -75,6 +75,7 @@ type VC struct {
 	tparamsEnv map[string]types.Type
 	callOrd map[ssa.Instruction]int
 	epochs  int
+	cbCount int
 	curInstr ssa.Instruction
 	probes  []Probe
 	curState *State // state receiving heap well-formedness facts discovered while translating clauses
@@ -198,6 +199,14 @@ func (vc *VC) applyFun(sig *types.Signature, tp map[string]types.Type) string {
 	name += "__" + sortID(res)
 	vc.d.declFun(name, sorts, res)
 	return name
+}
+
+// seesRepresentation: bindings of model fields are visible only while verifying code of the package that declares them.
+func (vc *VC) seesRepresentation(b *Binding) bool {
+	if vc.contract == nil || vc.contract.Pkg == nil || b.Pkg == nil {
+		return true
+	}
+	return vc.contract.Pkg.PkgPath == b.Pkg.PkgPath
 }
 
 // applyPreFun names the precondition predicate of function values of a signature.
@@ -334,6 +343,26 @@ func (e *Env) lvals(x ast.Expr) []LV {
 				es := sortOf(u.Elem())
 				vc.hget(e.heap, elemsArr(es), elemsSort(es))
 				return []LV{{Arr: elemsArr(es), Sort: elemsSort(es), Idx: app("sid", v.T)}}
+			case "anyfield":
+				// anyfield(T, f): every object's field f (real or ghost), for frames of callbacks that reach arbitrary objects
+				tt := e.resolveType(x.Args[0])
+				nm, ok := x.Args[1].(*ast.Ident)
+				if !ok || tt.Go == nil {
+					e.fail(x, "anyfield(Type, field)")
+				}
+				pt := tt.Go
+				if _, isPtr := types.Unalias(pt).Underlying().(*types.Pointer); !isPtr {
+					if _, isIface := types.Unalias(pt).Underlying().(*types.Interface); !isIface {
+						pt = types.NewPointer(pt)
+					}
+				}
+				dummy := TV{T: vc.d.declConst("anyobj_"+sortID(sortOf(pt)), sortOf(pt)), S: goSType(pt)}
+				lvs := e.fieldLV(dummy, nm.Name, x)
+				for i := range lvs {
+					lvs[i].Idx = ""
+					lvs[i].Whole = true
+				}
+				return lvs
 			case "forkargs":
 				// forkargs(param): the ghost array recording that argument of every forked thread
 				nm, ok := x.Args[0].(*ast.Ident)
@@ -367,6 +396,25 @@ func (e *Env) lvals(x ast.Expr) []LV {
 				vc.hget(e.heap, mapDomArr(ks), mapDomSort(ks))
 				vc.hget(e.heap, mapValArr(ks, vs), mapValSort(ks, vs))
 				return []LV{{Arr: mapDomArr(ks), Sort: mapDomSort(ks), Idx: m.T}, {Arr: mapValArr(ks, vs), Sort: mapValSort(ks, vs), Idx: m.T}}
+			}
+			if fr, ok := vc.specs.Frames[id.Name]; ok {
+				fe := &Env{vc: vc, pkg: fr.Pkg, vars: map[string]TV{}, heap: e.heap, old: e.old, tparams: e.tparams, facts: e.facts}
+				for i, pn := range fr.Params {
+					if i < len(x.Args) {
+						fe.vars[pn] = e.tr(x.Args[i])
+					}
+				}
+				var out []LV
+				for _, t := range fr.Targets {
+					for _, lv := range fe.lvals(t.Expr) {
+						if t.Any {
+							lv.Idx = ""
+							lv.Whole = true
+						}
+						out = append(out, lv)
+					}
+				}
+				return out
 			}
 			if sf, ok := vc.specs.SpecFuncs[id.Name]; ok && !sf.Opaque {
 				se := &Env{vc: vc, pkg: sf.Pkg, vars: map[string]TV{}, heap: e.heap, old: e.old, tparams: e.tparams, facts: e.facts}
@@ -408,6 +456,9 @@ func (e *Env) fieldLV(base TV, name string, n ast.Node) []LV {
 			out := []LV{e.ghostLV(gf, base, named)}
 			if base.S.Sort == "Iface" {
 				for _, b := range vc.specs.Bindings {
+					if !vc.seesRepresentation(b) {
+						continue
+					}
 					if b.Iface == okey && b.Field == name {
 						ct := e.concreteTypeOf(b)
 						be := &Env{vc: vc, pkg: b.Pkg, vars: map[string]TV{b.RecvName: {T: app("pl", base.T), S: goSType(ct)}}, heap: e.heap, old: e.old, facts: e.facts}
@@ -461,10 +512,7 @@ func (e *Env) ghostLV(gf *GhostField, base TV, named *types.Named) LV {
 	vc := e.vc
 	ge := &Env{vc: vc, pkg: gf.Pkg, vars: map[string]TV{}, heap: e.heap, old: e.old, tparams: e.typeArgEnv(named)}
 	st := ge.resolveType(gf.Type)
-	arr := "G_" + sanitize(shortKey(gf.Owner)) + "_" + gf.Name
-	if named != nil && named.TypeArgs() != nil && named.TypeArgs().Len() > 0 {
-		arr += "_" + sortID(st.Sort)
-	}
+	arr := ghostArrName(gf, named)
 	vc.hget(e.heap, arr, arrSort(st.Sort))
 	return LV{Arr: arr, Sort: arrSort(st.Sort), Idx: ghostIndex(base)}
 }
